@@ -754,6 +754,22 @@ class Weaver:
                     i = c + 1
                     continue
                 i += 1
+        # R12: a by-value `mut self` receiver (not accepted by the verifier) => `self`, rebound at entry as a mutable local
+        # `self_`; every `self` token of the body is renamed. Same moves, same assignments.
+        if "R12" not in norules:
+            k = it.start_tok if hasattr(it, "start_tok") else None
+            sig_s, sig_e = it.start, T(it.body_open).start
+            m = re.search(r'\(\s*mut\s+self\b', src[sig_s:sig_e])
+            if m:
+                ms = sig_s + m.start() + m.group(0).index("mut")
+                add(ms, ms + len("mut"), "", "R12")
+                p0 = T(it.body_open).end
+                add(p0, p0, " let mut self_ = self;", "R12", 5)
+                for i in range(lo, hi):
+                    t = T(i)
+                    if t.kind == "ident" and t.text == "self":
+                        add(t.start, t.end, "self_", "R12")
+                elog.append("R12: `mut self` receiver => `self` rebound as the mutable local `self_` (line %d)" % line(sig_s))
         # R1: for (I, &X) in E.iter().enumerate()
         if "R1" not in norules:
             for n, lp in enumerate(loops):
